@@ -139,3 +139,56 @@ func HarnessC11Within(onceForm int) {
 		vnCover("C11.within-call-checked")
 	}
 }
+
+// HarnessC11Par — the concurrent clause: two goroutines each perform one call that
+// needs the same run-once converter. Interleavings are explored by vnPar (handover
+// at mutex operations and at accesses to the shared Func's assigned fields).
+//
+//	kind 0: both call the same target; 1: one calls the target, the other Convert
+func HarnessC11Par(onceForm, kind, maxSwitches int) {
+	hOrderSites(0)
+	w := &hWorld{}
+	w.Convs = []hFuncSpec{
+		{ID: 1, Form: onceForm, In: []hLabel{{T: hTP0}}, Out: []hLabel{{Name: "a", T: hTP1}}, Once: true},
+	}
+	w.Target = hFuncSpec{ID: 0, Form: hFormStruct, In: []hLabel{{Name: "a", T: hTP1}}}
+	_, ok := w.hBuildAll()
+	if !ok {
+		vnAssume(false)
+	}
+	target, once := w.Funcs[0], w.Funcs[1]
+	x1, x2 := vnPayload("x", 1), vnPayload("x", 2)
+	vnNote(fmt.Sprintf("two goroutines, run-once converter in %s form, kind %d, <=%d context switches", hFormNames[onceForm], kind, maxSwitches))
+	vnOnDivergence("", "")
+	vnEpoch(target, once)
+	var e1, e2 error
+	vnPar(func() {
+		r := target.Call(Typed(hP0{x1}), ConverterFunc(once))
+		e1 = r.Err()
+	}, func() {
+		if kind == 0 {
+			r := target.Call(Typed(hP0{x2}), ConverterFunc(once))
+			e2 = r.Err()
+		} else {
+			_, e2 = Convert(hType(hTP1), Typed(hP0{x2}), ConverterFunc(once))
+		}
+	}, maxSwitches)
+	vnAssert(e1 == nil && e2 == nil, "C11.par.both-calls-succeed")
+	n := 0
+	var first hVal
+	for _, ex := range w.Log {
+		if ex.Fn == 1 {
+			n++
+			if n == 1 {
+				first = ex.Out[0]
+			}
+		}
+	}
+	vnAssert(n == 1, "C11.par.run-once-body-executes-exactly-once-under-every-interleaving")
+	for _, ex := range w.Log {
+		if ex.Fn == 0 {
+			vnAssert(ex.Recv[0].ID == first.ID, "C11.par.every-consumer-sees-the-single-execution")
+		}
+	}
+	vnCover("C11.par-checked")
+}
